@@ -248,6 +248,25 @@ def readStages (nx nu : Nat) : Nat → List (LQRStage Float) → P (List (LQRSta
     let J := buildJ (bitsOf mask nu) nu
     readStages nx nu k ({ A, B, Q, R, S, q, r, u, J, K := computeComplement J nu } :: acc)
 
+/-- one call of an `fbs` sequence -/
+inductive Call
+  | fwd (i : Nat) | sim (i : Nat) | bwd (i : Nat) | cpy (i j : Nat)
+
+def readCalls : Nat → List Call → P (List Call)
+  | 0, acc => pure acc.reverse
+  | k+1, acc => do
+    let t ← tok
+    match t with
+    | "F" => do let i ← nat; readCalls k (.fwd i :: acc)
+    | "S" => do let i ← nat; readCalls k (.sim i :: acc)
+    | "B" => do let i ← nat; readCalls k (.bwd i :: acc)
+    | "C" => do let i ← nat; let j ← nat; readCalls k (.cpy i j :: acc)
+    | _ => failure
+
+def readVecs : Nat → List (List Float) → P (List (List Float))
+  | 0, acc => pure acc.reverse
+  | k+1, acc => do let v ← vec; readVecs k (v :: acc)
+
 def step (_ : Unit) (line : String) : Unit × String :=
   let out : Option String :=
     match tokens line with
@@ -288,6 +307,41 @@ def step (_ : Unit) (line : String) : Unit × String :=
         let fw := forward P v D DN μ y st2
         let bw := backward P v D DN μ y fw.1
         pure (fmtF fw.2 ++ " s " ++ fmtV fw.1 ++ " g " ++ fmtV bw.g ++ " qr " ++ fmtV (bw.qrFlat v))) r
+    | "fbs" :: _ :: r => run (do
+        -- a SEQUENCE of calls on K storages.  The model is a pure function of the storage it is
+        -- handed: every call is answered from its arguments alone (the only thing threaded through
+        -- is the list of storage vectors, i.e. the data the C++ caller owns).
+        let p ← readProb
+        let μ ← vec; let y ← vec; let xinit ← vec
+        let K ← nat
+        let us ← readVecs K []
+        let L ← nat
+        let calls ← readCalls L []
+        let v := OCPVars.ofProblem p.N p.nx p.nu p.nh p.nc p.nhN p.ncN
+        let D := mkBox p.Dlb p.Dub
+        let DN := mkBox p.DNlb p.DNub
+        let P := p.toOCP
+        let mk := fun (u : List Float) =>
+          let st0 : List Float := List.replicate v.createSize 0
+          let st1 := setSeg st0 0 xinit
+          (List.range p.N).foldl (fun st t => setSeg st (v.ukStart t) (getSeg u (t * v.nu) v.nu)) st1
+        let stos0 : Array (List Float) := (us.map mk).toArray
+        let (_, outs) := calls.foldl (fun (acc : Array (List Float) × List String) c =>
+          let (stos, outs) := acc
+          match c with
+          | .fwd i =>
+            let fw := forward P v D DN μ y (stos.getD i [])
+            (stos.setIfInBounds i fw.1, ("F " ++ fmtF fw.2 ++ " s " ++ fmtV fw.1) :: outs)
+          | .sim i =>
+            let s := forwardSimulate P v (stos.getD i [])
+            (stos.setIfInBounds i s, ("S s " ++ fmtV s) :: outs)
+          | .bwd i =>
+            let bw := backward P v D DN μ y (stos.getD i [])
+            (stos, ("B g " ++ fmtV bw.g ++ " qr " ++ fmtV (bw.qrFlat v)) :: outs)
+          | .cpy i j =>
+            let s := stos.getD i []
+            (stos.setIfInBounds j s, ("C s " ++ fmtV s) :: outs)) (stos0, [])
+        pure (String.intercalate " | " outs.reverse)) r
     | "ric" :: r => run (do
         let _chol ← nat
         let N ← nat; let nx ← nat; let nu ← nat
